@@ -253,6 +253,10 @@ class RpcClient:
             raise ValueError(
                 f"Received unexpected PDU response of {type(pdu_resp).__name__} when expecting {resp_type.__name__}"
             )
+        elif self._auth and encrypt_offsets and not pdu_header.auth_len:
+            # The request was sealed by the security context, a reply without
+            # a security trailer has not been protected by the peer.
+            raise ValueError(f"Received {type(pdu_resp).__name__} without a security trailer on an authenticated call")
 
         return pdu_resp
 
